@@ -14,6 +14,7 @@ mod proofs;
 mod rng;
 mod sched;
 mod treeutil;
+mod wire;
 
 use std::io::Write;
 
@@ -67,10 +68,11 @@ fn main() {
             }
             writeln!(out, "SUMMARY cases={} sequences={} oracle_failures={}", o.cases, o.seqs, o.fails.len()).unwrap();
         }
-        "dirs" | "advdir" | "c10" | "c11" | "c12" | "c13" | "c14" | "c20" => {
+        "dirs" | "advdir" | "c10" | "c11" | "c12" | "c13" | "c14" | "c20" | "c18" | "c19" => {
             let cx = match cmd {
                 "dirs" => dirs::run(arg(&args, 2, 1u64), arg(&args, 3, 0u32)),
                 "advdir" => advdir::run(arg(&args, 2, 1u64), arg(&args, 3, 0u32)),
+                "c18" | "c19" => wire::run(arg(&args, 2, 1u64), arg(&args, 3, 0u32), cmd),
                 "c14" | "c20" => matrix::run(arg(&args, 2, 1u64), arg(&args, 3, 0u32), cmd),
                 "c12" | "c13" => sched::run(arg(&args, 2, 1u64), arg(&args, 3, 0u32), cmd),
                 _ => faults::run(arg(&args, 2, 1u64), arg(&args, 3, 0u32), cmd),
